@@ -627,8 +627,8 @@ def run(facts):
                 continue
             p = (fn.get("res") or fn)["path"]
             a0 = (fn.get("args") or [""])[0] if fn.get("args") else ""
-            if p == "core::mem::ManuallyDrop::<T>::new" and a0 in a2.handles:
-                md = True
+            if p in ("core::mem::ManuallyDrop::<T>::new", "core::mem::forget") and a0 in a2.handles:
+                md = True           # `mem::forget(handle)` suppresses the drop just as ManuallyDrop does: the reference must go somewhere else on that path
             if p == "core::ptr::read" and a0 in a2.handles:
                 dup = True
         im = facts.impl_of(b)
